@@ -195,16 +195,33 @@ def fan_out(modname, fname, items, tier, seed, workers=None):
 
         ctx = mp.get_context("spawn")
         outs = []
-        pending = list(jobs)
-        try:
-            with cf.ProcessPoolExecutor(workers, mp_context=ctx, initializer=_worker_init, max_tasks_per_child=None) as ex:
-                futs = {ex.submit(_worker_call, j): j for j in jobs}
-                for fu in cf.as_completed(futs):
-                    outs.append(fu.result())
-                    pending.remove(futs[fu])
-        except cf.process.BrokenProcessPool as e:
-            for j in pending:
-                outs.append(("err", f"worker process died while running {j[0]}.{j[1]}({str(j[2])[:120]}) or a sibling item: {e}"))
+
+        def run_batch(batch, nw):
+            """-> jobs of `batch` that were lost because a worker died"""
+            pending = list(batch)
+            try:
+                with cf.ProcessPoolExecutor(min(nw, len(batch)), mp_context=ctx, initializer=_worker_init, max_tasks_per_child=None) as ex:
+                    futs = {ex.submit(_worker_call, j): j for j in batch}
+                    for fu in cf.as_completed(futs):
+                        outs.append(fu.result())
+                        pending.remove(futs[fu])
+            except cf.process.BrokenProcessPool as e:
+                return pending, str(e)
+            return [], None
+
+        # Workers are replaced after every batch (bounds the memory a long thorough run accumulates in
+        # XLA / tracing caches).  Items lost to a dead worker are re-run once on a smaller pool; if a
+        # worker dies again the run is a harness error.
+        chunk = workers * int(os.environ.get("VERIF_ITEMS_PER_WORKER", "12"))
+        queue = list(jobs)
+        while queue:
+            batch, queue = queue[:chunk], queue[chunk:]
+            lost, why = run_batch(batch, workers)
+            if lost:
+                print(f"[harness] a worker died ({why[:80]}); re-running {len(lost)} item(s) on {max(2, workers // 4)} workers", flush=True)
+                lost2, why2 = run_batch(lost, max(2, workers // 4))
+                for j in lost2:
+                    outs.append(("err", f"worker process died twice while running {j[0]}.{j[1]}({str(j[2])[:120]}) or a sibling item: {why2}"))
     for tag, r in outs:
         if tag == "ok":
             total.merge(r)
